@@ -107,9 +107,206 @@ def wait_fs_tick(d):
     os.remove(probe)
 
 
+class Turnstile:
+    """Interleaves the file operations (open / write / close / rename) of several worker threads one operation at a time, in turn:
+    all writers open their staging files before any of them writes, and so on. Waits are bounded (a timeout only weakens the
+    enforcement of the interleaving, no verdict depends on it)."""
+
+    def __init__(self, n, root):
+        import threading
+
+        self.n = n
+        self.root = str(root)
+        self.cv = threading.Condition()
+        self.active = []
+        self.turn = 0
+        self.ops = []
+        self.get_ident = threading.get_ident
+
+    def before(self, name):
+        import time as _t
+
+        tid = self.get_ident()
+        with self.cv:
+            if tid not in self.active:
+                self.active.append(tid)
+                self.cv.notify_all()
+                end = _t.monotonic() + 0.5
+                while len(self.active) < self.n and _t.monotonic() < end:
+                    self.cv.wait(0.05)
+            end = _t.monotonic() + 0.3
+            while self.active and self.active[self.turn % len(self.active)] != tid and _t.monotonic() < end:
+                self.cv.wait(0.05)
+            self.ops.append((self.active.index(tid), name))
+
+    def after(self, name, leave=False):
+        tid = self.get_ident()
+        with self.cv:
+            if tid in self.active:
+                i = self.active.index(tid)
+                if leave:
+                    self.active.remove(tid)
+                    self.turn = i
+                else:
+                    self.turn = i + 1
+            self.cv.notify_all()
+
+    def __enter__(self):
+        import builtins
+
+        ts = self
+        self.saved = (builtins.open, os.replace)
+        r_open, r_replace = self.saved
+
+        class Proxy:
+            def __init__(self, f):
+                self._f = f
+
+            def write(self, data):
+                ts.before("write")
+                try:
+                    return self._f.write(data)
+                finally:
+                    ts.after("write")
+
+            def close(self):
+                if self._f.closed:
+                    return
+                ts.before("close")
+                try:
+                    return self._f.close()
+                finally:
+                    ts.after("close")
+
+            def __enter__(self):
+                return self
+
+            def __exit__(self, *a):
+                self.close()
+                return False
+
+            def __getattr__(self, name):
+                return getattr(self._f, name)
+
+        def shim_open(path, mode="r", *a, **kw):
+            if isinstance(mode, str) and "w" in mode and str(os.fspath(path)).startswith(ts.root):
+                ts.before("open")
+                try:
+                    return Proxy(r_open(path, mode, *a, **kw))
+                finally:
+                    ts.after("open")
+            return r_open(path, mode, *a, **kw)
+
+        def shim_replace(src, dst, *a, **kw):
+            if str(os.fspath(dst)).startswith(ts.root):
+                ts.before("replace")
+                try:
+                    return r_replace(src, dst, *a, **kw)
+                finally:
+                    ts.after("replace", leave=True)
+            return r_replace(src, dst, *a, **kw)
+
+        builtins.open = shim_open
+        os.replace = shim_replace
+        return self
+
+    def __exit__(self, *a):
+        import builtins
+
+        builtins.open, os.replace = self.saved
+        return False
+
+
+def g1(a):
+    return {"one": a, "pad": "j" * 300}
+
+
+def g2(a):
+    return ("two", a["v"], "p" * 500)
+
+
+def g3(a):
+    return "three:" + json.dumps(a) + "\n" + "t" * 200
+
+
+def run_siblings(desc):
+    """Independent stored values whose files are siblings in one directory (same stem, different extensions; or one name a prefix of
+    the other) are written by different workers at the same time, their file operations interleaved one at a time. Each value
+    must end up complete in its own file (no shared staging file), the run must succeed, and a second run must be silent."""
+    import uberjob
+    from uberjob.stores import JsonFileStore, PickleFileStore, TextFileStore
+
+    rng = random.Random(desc["seed"])
+    stem = rng.choice(["x", "summary", "v.1", "data.2021", "r"])
+    kinds = rng.sample([("json", JsonFileStore, g1), ("pkl", PickleFileStore, g2), ("txt", TextFileStore, g3)], rng.choice([2, 3]))
+    base = tempfile.mkdtemp(prefix="vmon-c08s-")
+    counters = {"sibling_cases": 1, "sibling_interleaved_ops": 0, "sibling_cases_all_opened_before_first_write": 0}
+    bad = None
+    try:
+        plan = uberjob.Plan()
+        reg = uberjob.Registry()
+        A = JsonFileStore(os.path.join(base, "a.json"))
+        aval = {"v": rng.randint(0, 99)}
+        A.write(aval)
+        a = reg.source(plan, A)
+        sib = []
+        for ext, cls, fn in kinds:
+            name = f"{stem}.{ext}" if rng.random() < 0.85 else stem  # sometimes one file name is a prefix of the others
+            if any(name == s_[0] for s_ in sib):
+                name = f"{stem}.{ext}"
+            st = cls(os.path.join(base, name))
+            nd = plan.call(fn, a)
+            reg.add(nd, st)
+            sib.append((name, st, fn))
+        wait_fs_tick(base)
+        ts = Turnstile(len(sib), base)
+        exc = None
+        with ts:
+            try:
+                uberjob.run(plan, registry=reg, progress=None, max_workers=len(sib))
+            except BaseException as e:
+                exc = e
+        counters["sibling_interleaved_ops"] = len(ts.ops)
+        first_write = next((i for i, (t, n) in enumerate(ts.ops) if n == "write"), len(ts.ops))
+        opened = {t for t, n in ts.ops[:first_write] if n == "open"}
+        counters["sibling_cases_all_opened_before_first_write"] = int(len(opened) == len(sib))
+        listing = sorted(os.listdir(base))
+        if exc is not None:
+            bad = f"run writing sibling files {[n for n, _, _ in sib]} concurrently raised {exc!r} (cause {exc.__cause__!r}); directory {listing}; operations {ts.ops[:16]}"
+        else:
+            for name, st, fn in sib:
+                want = fn(aval)
+                try:
+                    got = st.read()
+                except BaseException as e:
+                    bad = f"sibling file {name} cannot be read after the run: {e!r}; operations {ts.ops[:16]}"
+                    break
+                if json.loads(json.dumps(got)) != json.loads(json.dumps(want)):
+                    bad = f"sibling file {name} holds {str(got)[:80]!r}, expected {str(want)[:80]!r} (written concurrently with {[n for n, _, _ in sib if n != name]}); operations {ts.ops[:16]}"
+                    break
+            left = [f for f in listing if f.endswith(".STAGING")]
+            if bad is None and left:
+                bad = f"staging files left after a successful run: {left}"
+            if bad is None:
+                before = {f: os.stat(os.path.join(base, f)).st_mtime_ns for f in listing}
+                uberjob.run(plan, registry=reg, progress=None, max_workers=2)
+                after = {f: os.stat(os.path.join(base, f)).st_mtime_ns for f in sorted(os.listdir(base))}
+                if before != after:
+                    bad = f"a second run rewrote sibling files: {sorted(k for k in after if before.get(k) != after[k])}"
+    finally:
+        shutil.rmtree(base, ignore_errors=True)
+    res = {"status": "ok", "counters": counters, "nontrivial": counters["sibling_cases_all_opened_before_first_write"] > 0,
+           "sig": hashlib.sha1(f"siblings|{stem}|{[k[0] for k in kinds]}|{desc['seed'] % 1000}".encode()).hexdigest()[:16]}
+    if bad:
+        res.update(status="violation", detail=f"[file-backed siblings] {bad}", mechanism="cut-repair-file", witness={"desc": desc})
+    return res
+
+
 def run_case(desc):
     import uberjob
 
+    if desc.get("siblings"):
+        return run_siblings(desc)
     rng = random.Random(desc["seed"])
     shape = rng.choice([0, 1, 2])
     names = ["a", "b", "c"] + (["d"] if shape >= 1 else []) + (["e"] if shape >= 2 else [])
